@@ -20,7 +20,7 @@ RULE = ("seven generated families against the real CategoricalClassification met
         "distinct = distinct canonical cases")
 THEOREMS = ["C20_corr", "C20_corr_tan", "C20_corr_construction", "C20_dup", "C20_dup_info", "C20_dup_prefix_refuted", "C20_combo",
             "C20_corr_info", "C20_info_exact", "C20_info_old_refuted", "C20_labels_mono", "C20_labels_count",
-            "C20_labels_prop", "C20_labels_class_sizes", "C20_labels_ndarray_note", "C20_noise_cat", "C20_noise_cat_check_sound",
+            "C20_labels_prop", "C20_labels_class_sizes", "C20_labels_cumulative", "C20_labels_ndarray_note", "C20_noise_cat", "C20_noise_cat_check_sound",
             "C20_noise_missing", "C20_noise_missing_check_sound", "C20_noise_cat_needs_standard_labels", "C20_downsample",
             "C20_downsample_check_sound"]
 REAL_THEOREMS = {"C20_corr", "C20_corr_tan", "C20_corr_construction"}
@@ -305,6 +305,23 @@ GENS = {"pipe": gen_pipe, "corr": gen_corr, "labels": gen_labels, "noise_cat": g
         "down": gen_down, "session": gen_session}
 QUICK = {"pipe": 130, "corr": 70, "labels": 260, "noise_cat": 120, "noise_missing": 70, "down": 110, "session": 60}
 THOROUGH = {"pipe": 900, "corr": 500, "labels": 2000, "noise_cat": 900, "noise_missing": 500, "down": 800, "session": 400}
+
+
+def exhaustive_labels():
+    """thorough tier: every cut position on small tie-free and tied columns, two and three classes"""
+    out = []
+    for N in range(1, 8):
+        for tied in (False, True):
+            col = [[10 * (i // 2 if tied else i) + 3] for i in range(N)]
+            for k in range(0, 17):
+                out.append({"kind": "labels", "X": col, "dtype": "int64", "n": 2, "p": {"v": [k, 16], "as": "scalar"},
+                            "relation": "first_col", "k": 2})
+            for a in range(0, 9):
+                for b in range(0, 9 - a):
+                    out.append({"kind": "labels", "X": col, "dtype": "int64", "n": 3,
+                                "p": {"v": [[a, 8], [b, 8], [8 - a - b, 8]], "as": "array" if (a + b) % 2 else "list"},
+                                "relation": "linear", "k": 2})
+    return out
 
 
 def load_corpus(pid):
@@ -868,6 +885,8 @@ def check(run, replay):
         run.violation("broken-obligation", "axioms:" + ",".join(leaked), found_input=False,
                       extra="only the theorems over R may depend on the standard-library real-number axioms")
 
+    if replay is not None and not replay.get("case"):
+        replay = None                       # a broken-obligation replay carries no input: re-run the whole check
     if replay is not None:
         cases = [replay["case"]]
     else:
@@ -876,6 +895,8 @@ def check(run, replay):
         for kind, cnt in plan.items():
             for _ in range(cnt):
                 cases.append(GENS[kind](run.rng, run.tier == "thorough"))
+        if run.tier == "thorough":
+            cases.extend(exhaustive_labels())
     stats = {}
     findings, res = evaluate(cases, stats)
     hist = {}
@@ -907,6 +928,9 @@ def check(run, replay):
         sizes[b] = sizes.get(b, 0) + 1
     run.cov["input_distribution"] = {"families": hist, "sizes": sizes, "stats": stats}
     run.cov["exhaustive"] = False
+    if run.tier == "thorough" and replay is None:
+        run.cov["exhaustive_small_scope"] = ("labels: every cut position k/16 (2 classes) and every (a/8, b/8, rest) distribution (3 classes, list "
+                                             "and ndarray) on tie-free and tied columns of 1..7 rows (%d cases) included" % len(exhaustive_labels()))
     run.samples = [c for c in cases[:400:60]][:6]
     run.assumptions += [
         "decision values and class distributions are generated as integers / dyadic rationals so that the float evaluation of "
